@@ -353,7 +353,7 @@ func runC17(c *Ctx, r *Report) {
 				"memory is updated only after the entry's block is in the store", sc.What+" in Append is not dominated by the success of the block write: a crash (or a failed write) leaves a head in memory/manifests whose block is not in the store")
 		}
 	})
-	r.Floor("R-C17.1", "Entries/Next/heads changes in Append", nch, 3)
+	r.Floor("R-C17.1", "Entries/Next/heads changes in Append", nch, 2)
 	afl.Exits(func(_ *cfgBlk, ret *ast.ReturnStmt, at Facts) {
 		if ret == nil {
 			return
